@@ -28,6 +28,7 @@ EXPLANATION = (
     "re-reads slots it has already overwritten). SIB-1: the offset handed to the comb is one scalar "
     "uniform draw (shape ()), not a vector. Comb positions computed for all teeth at once (a "
     "comprehension handed to one searchsorted) and buffers kept in a dict are read as the same comb. "
+    " MPI-1: on the root, the cumulative weights of the comb are taken over the receive buffer of the Gather whose send buffer is the weights argument, not over the rank's own weights. PAIR-1: a block of the argument handed back inside a freshly built container is a block the comb did not touch. The container kind ([up, dn] or one array) is read from how the first parameter is used (literal or module-constant 0 / 1 subscripts, unpacking into two names), not from its name. "
 )
 NOT_DECIDED = (
     "floor/ceil selection counts and exact unbiasedness over the offset (mathematical consequences of the "
@@ -255,6 +256,18 @@ def analyse_comb(ctx, fi: FuncInfo) -> Comb:
             if body is not None and body.op == "getitem" and body.args[0] is leaf and \
                     norm_iter(strip_wrappers(body.args[1])) is norm_iter(index_term):
                 c.tree_gather = show(call_parts(w_out)[1][1], maxdepth=2)
+    c.ungathered = []
+    if R.op == "tuple" and len(R.args) == 2 and strip_wrappers(R.args[0]).op in ("list", "tuple"):
+        # a freshly built container: every block of it is a gather by the comb index; a block of the argument handed back
+        # as it came is a positive witness of a block the comb did not touch
+        prm0 = sym(fi.pos_params()[0].name) if fi.pos_params() else None
+        for k_, el in enumerate(strip_wrappers(R.args[0]).args):
+            el = strip_wrappers(el)
+            if el.op == "getitem" and norm_iter(strip_wrappers(el.args[1])) is norm_iter(index_term):
+                c.gathers.append((f"return[{k_}]", show(strip_wrappers(el.args[0]), maxdepth=3), el.args[1]))
+            elif prm0 is not None and (el is prm0 or (el.op == "getitem" and strip_wrappers(el.args[0]) is prm0 and
+                                                      el.args[1].op == "const")):
+                c.ungathered.append((k_, show(el, maxdepth=2)))
     c.events = ev.events
     c.ev = ev
     c.result = R
@@ -319,6 +332,10 @@ def _copies(ctx, fi: FuncInfo, c: Comb):
                                       ctx.p.modules[fi.module].constants))
     n_g = len(c.gathers)
     want = 2 if uses_pair else 1
+    if getattr(c, "ungathered", None):
+        ctx.ob("PAIR-1", f"{q}: every block handed back is gathered with the comb index", False,
+               f"block(s) {c.ungathered} of the returned container are the argument's own blocks: the comb selected "
+               f"survivors for the other block(s) only", fi)
     if n_g == 0 and c.tree_gather is None:
         # no copy through the comb index was recognised at all.  A positive witness would be the container handed back as
         # it came; anything else (the copying parked in a helper, written over a list of blocks, ...) is not judged
